@@ -12,7 +12,8 @@ RULE = (
     'constructions, value requests on arbitrary tasks in arbitrary order, every inspection call (tasks_df, str, '
     '_repr_markdown_, has_data, data_path, run_info, log, create_readable_filenames, graph queries, is_forced), soft '
     'restarts (all objects dropped) and fresh-interpreter sessions (a pristine forked process building chains and '
-    'requesting values on the same directory). Oracle: store/evaluator reference model: after EVERY step the '
+    'requesting values on the same directory); one history in six runs in name mode (parameter_mode=False, one '
+    'configuration, where the default readable-link name is the result\'s own file name). Oracle: store/evaluator reference model: after EVERY step the '
     'invocation-log increment equals the predicted set exactly (construction and inspection add nothing; a request adds '
     'exactly the pull-closure of missing results; a stored result is loaded without touching its upstream), every '
     'returned value equals the model\'s, and over the whole history every storage location is run at most once (an '
@@ -50,6 +51,9 @@ def eval_case(hist, rec):
     served = sum(1 for s in flat if s.get('kind') == 'value' and s.get('served_without_run'))
     multi = sum(1 for s in flat if s.get('kind') == 'value' and s.get('runs', 0) >= 2)
     cl = sorted({'op:' + o['op'] for o in hist['ops']})
+    cl += sorted({'inspect:' + o['what'] for o in hist['ops'] if o['op'] == 'inspect'})
+    if hist.get('name_mode'):
+        cl.append('name-mode')
     if any(s.get('session') for s in flat):
         cl.append('cross-process')
     if served:
@@ -60,7 +64,7 @@ def eval_case(hist, rec):
 
 
 def strategy():
-    return histgen.histories(KINDS, max_ops=20, gen_kw=dict(max_modules=3, max_tasks=3, kinds=gen.KINDS_ALL))
+    return histgen.histories(KINDS, max_ops=20, gen_kw=dict(max_modules=3, max_tasks=3, kinds=gen.KINDS_ALL), name_mode=True)
 
 
 def plan(tier):
